@@ -1111,7 +1111,10 @@ impl<'r> Gen<'r> {
             let (first, _) = index_positions[0];
             let (later, later_len) = index_positions[1 + self.rng.usize_below(index_positions.len() - 1)];
             let counters: Vec<Var> = muts.iter().filter(|c| c.name != v.name && matches!(c.ty, Ty::Int(_))).cloned().collect();
-            if later_len > 0 && !counters.is_empty() {
+            // (the later index expression is replaced: only one that is a literal or a variable, so
+            // that no call of a helper function - which has to stay used - is dropped with it)
+            let replaceable = matches!(&accs[later], Acc::Index(i) if matches!(i.kind, ExprKind::Lit(_) | ExprKind::Var(_)));
+            if later_len > 0 && !counters.is_empty() && replaceable {
                 self.note("index-expressions-of-one-place-interact");
                 let c = self.rng.pick(&counters).clone();
                 let new_val = self.gen_expr(&c.ty, 1);
